@@ -30,6 +30,7 @@ EXPLANATION = (
     "values travel through like-named hops and the `is not None` guard tests the setting that is stored, (b) a countdown "
     "whose completion is tested with `== 0` after the decrement is armed only with values provably >= 1 (max(duration, 1)) - "
     "armed with a configured 0 it never completes -, (c) the completed node scan scans every process, service and application "
+    "R14.7 the numeric settings this property depends on are never tested by truthiness (`x or default`, `if x:`), because 0 is a legal value for them. "
     "unconditionally. NOT decided: "
     "'exactly N ticks' (counter arithmetic, including durations 0 and 1); what happens to a running fix when another "
     "event (compromise, overwhelm, web request) overwrites FIXING (needs a reference model); File(**model_dump()) in "
@@ -774,3 +775,5 @@ def check(ctx: Ctx) -> None:
     r14_3(ctx)
     r14_4(ctx)
     r14_6(ctx)
+    from .common import falsy_numeric
+    falsy_numeric(ctx, "R14.7", r"duration", "configured durations (0 = completes at once / next tick)")
